@@ -60,11 +60,20 @@ func (x *gen) leaf(name string) *sg.Node {
 	if n.Default == nil && g.Chance(1, 6, "lmand") {
 		n.Mandatory = "true"
 	}
+	// names in an expression may carry the prefix of the module the text is written in: it keeps meaning that module
+	// wherever a uses copies the text to
+	own := ""
+	if i := strings.Index(x.idb, ":"); i > 0 && g.Bool("exprownprefix") {
+		own = x.idb[:i+1]
+	}
 	if g.Chance(1, 6, "lmust") {
 		n.Musts = []sg.Must{{Expr: ". != 'x'"}}
+		if own != "" {
+			n.Musts[0].Expr = "../" + own + "enabled != 'x'"
+		}
 	}
 	if g.Chance(1, 8, "lwhen") {
-		n.When = "../k = 'on'"
+		n.When = "../" + own + "k = 'on'"
 	}
 	return n
 }
